@@ -30,7 +30,7 @@ def pre_build():
     missing = [u for u in uses if u not in covered]
     note = ('coverage: every cached method of the library is in the transparency plan' if not missing else
             'coverage: cached methods NOT in the transparency plan (transparency of these is not observed): ' + ', '.join(missing))
-    return [unit, (note, True, 'ok')]
+    return [unit, (note, not missing, 'ok' if not missing else 'a memoised method outside the observed plan: ' + ', '.join(missing))]
 
 
 def gen_cases(rng, tier):
@@ -265,6 +265,30 @@ def _impl_real(case):
             if not _eq(_plain(getattr(a, meth)(**kw)), _plain(getattr(b, meth)(**kw))):
                 problems.append(f'TrajectoryMetrics.{meth} of {name} (derived from a parent whose other derivatives were analysed before) differs from the same '
                                 f'analysis of an independently built equal trajectory')
+    # the trajectory under an analysis object may legitimately grow in place (extend); analysis objects made afterwards see the grown run:
+    # nothing memoised for the short run, on any layer, may show up in their answers
+    rx = np.random.default_rng(case['seed'] + 13)
+    short = np.cumsum(rx.normal(0, 0.01, size=(40, 3, 3)), axis=0) + 0.3
+    more = np.cumsum(rx.normal(0, 0.01, size=(60, 3, 3)), axis=0) + short[-1]
+    grown = synth.make_traj(m, ['Li', 'Li', 'Na'], short, mode='asis')
+    m1 = TrajectoryMetrics(grown)
+    before = (np.array(m1.speed()), _plain(m1.tracer_diffusivity(dimensions=3)), _plain(m1.vibration_amplitude()), np.array(grown.distances_from_base_position()),
+              np.array(grown.mean_squared_displacement()))
+    del m1
+    gc.collect()
+    grown.extend(synth.make_traj(m, ['Li', 'Li', 'Na'], more, mode='asis'))
+    whole = synth.make_traj(m, ['Li', 'Li', 'Na'], np.concatenate([short, more], axis=0), mode='asis')
+    m2, mw = TrajectoryMetrics(grown), TrajectoryMetrics(whole)
+    for label, a, b in (('TrajectoryMetrics.speed', np.array(m2.speed()), np.array(mw.speed())),
+                        ('TrajectoryMetrics.tracer_diffusivity', _plain(m2.tracer_diffusivity(dimensions=3)), _plain(mw.tracer_diffusivity(dimensions=3))),
+                        ('TrajectoryMetrics.vibration_amplitude', _plain(m2.vibration_amplitude()), _plain(mw.vibration_amplitude())),
+                        ('Trajectory.distances_from_base_position', np.array(grown.distances_from_base_position()), np.array(whole.distances_from_base_position())),
+                        ('Trajectory.mean_squared_displacement', np.array(grown.mean_squared_displacement()), np.array(whole.mean_squared_displacement()))):
+        checked += 1
+        if not _eq(a, b):
+            problems.append(f'{label} asked after the trajectory was extended (40 -> 100 frames; the short run had been analysed before) differs from the same '
+                            f'analysis of an independently built 100-frame trajectory')
+    del before
     # liveness, attributed per cached method: fresh object, one cached call, drop, collect
     from gemdat.transitions import Transitions
     traj, tr, j, mt = objs[0]
